@@ -237,7 +237,7 @@ fn utils_roundtrip(out: &mut Out, bytes: &[u8], src: &str) {
     let kind = bytes[0] >> 6;
     let n = bytes.len();
     let r = cu("utils", AssertUnwindSafe(|| -> Option<(String, Vec<u8>)> {
-        let mut regen = vec![0xAAu8; n];
+        let mut regen = vec![0xAAu8; n + 6]; // 6 canary bytes beyond the packet
         let d = match kind {
             3 => {
                 let p = GseCompletePacket::parse(bytes).ok()?;
@@ -270,6 +270,8 @@ fn utils_roundtrip(out: &mut Out, bytes: &[u8], src: &str) {
         // so ("opaque") and only the byte-level round trip is judged
         Ok(Some((d, g))) => (if d.contains("gse_len:") && d.contains("pdu:") { "ok" } else { "opaque" }, d, g),
     };
+    let tail_ok = regen.len() < n || regen[n..].iter().all(|b| *b == 0xAA);
+    let regen: Vec<u8> = regen.into_iter().take(n).collect();
     out.emit(
         &Obj::new()
             .str("ev", "utils_rt")
@@ -278,6 +280,7 @@ fn utils_roundtrip(out: &mut Out, bytes: &[u8], src: &str) {
             .str("t", t)
             .raw("desc", &parse_debug_desc(&dbg))
             .bytes("regen", &regen)
+            .boolean("tail_ok", tail_ok)
             .end(),
     );
 }
@@ -407,33 +410,37 @@ pub fn utils(out: &mut Out, seed: u64, thorough: bool) {
             match kind {
                 0 => {
                     let gl = 2 + label.len() + plen;
-                    let mut b = vec![0x55u8; gl + 2];
+                    let mut b = vec![0x55u8; gl + 2 + 6];
                     GseCompletePacket::new(gl as u16, ptype, label, &pdu).generate(&mut b);
                     (jdesc("complete", gl, 0, 0, ptype as usize, &label, &pdu, 0), b)
                 }
                 1 => {
                     let gl = 5 + label.len() + plen;
-                    let mut b = vec![0x55u8; gl + 2];
+                    let mut b = vec![0x55u8; gl + 2 + 6];
                     GseFirstFragPacket::new(gl as u16, fragid, tl, ptype, label, &pdu).generate(&mut b);
                     (jdesc("first", gl, fragid as usize, tl as usize, ptype as usize, &label, &pdu, 0), b)
                 }
                 2 => {
                     let gl = 1 + plen;
-                    let mut b = vec![0x55u8; gl + 2];
+                    let mut b = vec![0x55u8; gl + 2 + 6];
                     GseIntermediatePacket::new(gl as u16, fragid, &pdu).generate(&mut b);
                     (jdesc("inter", gl, fragid as usize, 0, 0, &Label::ReUse, &pdu, 0), b)
                 }
                 _ => {
                     let gl = 5 + plen;
-                    let mut b = vec![0x55u8; gl + 2];
+                    let mut b = vec![0x55u8; gl + 2 + 6];
                     GseEndFragPacket::new(gl as u16, fragid, &pdu, crc).generate(&mut b);
                     (jdesc("end", gl, fragid as usize, 0, 0, &Label::ReUse, &pdu, crc), b)
                 }
             }
         }));
         match r {
-            Ok((desc, bytes)) => {
-                out.emit(&Obj::new().str("ev", "utils_gen").raw("desc", &desc).bytes("bytes", &bytes).boolean("panic", false).end());
+            Ok((desc, mut bytes)) => {
+                // the last 6 bytes of the buffer lie beyond the packet: generate must leave them alone
+                let n = bytes.len() - 6;
+                let tail_ok = bytes[n..].iter().all(|b| *b == 0x55);
+                bytes.truncate(n);
+                out.emit(&Obj::new().str("ev", "utils_gen").raw("desc", &desc).bytes("bytes", &bytes).boolean("panic", false).boolean("tail_ok", tail_ok).end());
                 if !(kind == 2 && plen == 0) {
                     utils_roundtrip(out, &bytes, "synthetic");
                 }
